@@ -130,14 +130,23 @@ func debMachine(p *Prog, sc debScenario) *Machine {
 	m.Hooks["bufio.NewReader"] = func(m *Machine, st *State, call *ssa.CallCommon, args []Val) ([]Val, bool) {
 		return []Val{opaque(st, "bufio("+debProv(st, args[0])+")")}, true
 	}
-	m.Hooks["(*bufio.Reader).ReadString"] = func(m *Machine, st *State, call *ssa.CallCommon, args []Val) ([]Val, bool) {
-		note(st, "readstring:"+debProv(st, args[0]))
-		if !strings.HasSuffix(sc.binary, "\n") {
-			return []Val{&TupleV{E: []Val{sc.binary, eofVal}}}, true
+	// the version line of debian-binary: one line, then the end of the member
+	installLineReader(m, func(st *State) (string, bool) {
+		n := 0
+		for _, ef := range st.Effects {
+			if ef == "readline:debian-binary" {
+				n++
+			}
 		}
-		first := sc.binary[:strings.Index(sc.binary, "\n")+1]
-		return []Val{&TupleV{E: []Val{first, nilV{}}}}, true
-	}
+		st.Effects = append(st.Effects, "readline:debian-binary")
+		if n > 0 || sc.binary == "" {
+			return "", false
+		}
+		if i := strings.Index(sc.binary, "\n"); i >= 0 {
+			return sc.binary[:i+1], true
+		}
+		return sc.binary, true
+	})
 	m.Hooks[repoModule+"/control.Unmarshal"] = func(m *Machine, st *State, call *ssa.CallCommon, args []Val) ([]Val, bool) {
 		note(st, "unmarshal:"+debProv(st, args[1]))
 		tgt := "?"
